@@ -10,7 +10,7 @@ echo "|---|---|---|" >> $OUT
 run() { # patch label checks...
   P="$1"; L="$2"; shift 2
   for c in "$@"; do
-    R=$(tools/mutcheck.sh "$P" "$c" 2>&1 | grep -E "VIOLATION|FAIL| ok |does not apply" | tr '\n' ' ' | sed 's/|/ /g' | cut -c1-260)
+    R=$(tools/mutcheck.sh "$P" "$c" 2>&1 | grep -E "VIOLATION|FAIL| ok |does not apply|REPLAY" | tr '\n' ' ' | sed 's/|/ /g' | cut -c1-260)
     echo "| $L | $c | $R |" >> $OUT
   done
 }
